@@ -330,7 +330,8 @@ def finish_l1(v, tier, seed, mc, stats, rule):
 def c05_scope(sig):
     """C05 decides structure / accounting / DB::check; logical results are C01's business"""
     if sig.get("kind") == "l1":
-        return sig["rule"] not in ("header-before-data-sync", "publish-before-sync", "release-bound", "must-release",
+        return sig["rule"] not in ("header-before-data-sync", "publish-before-header", "commit-ok-before-header-sync",
+                                   "release-bound", "must-release",
                                    "reader-page-released")
     if sig.get("kind") == "kv":
         return sig.get("what") == "check"
@@ -384,7 +385,7 @@ def check_C05(tier, seed):
                      "delete+recreate, recreate as other kind) and kv edits on three-level trees, plus seeded random histories.")
 
 
-C02_RULES = ("header-before-data-sync", "publish-before-sync", "header-over-the-current-slot", "header-fields",
+C02_RULES = ("header-before-data-sync", "publish-before-header", "commit-ok-before-header-sync", "header-over-the-current-slot", "header-fields",
              "invalid-header-written", "header-not-whole-page", "write-outside-commit", "header-write-outside-commit",
              "live-page-overwritten", "alloc-of-live-page", "allocated-page-not-written", "data-write-after-header",
              "write-beyond-end-of-file", "write-outside-allocation", "unaligned-write", "no-valid-header", "header-choice",
@@ -458,6 +459,256 @@ def check_C02(tier, seed):
     return v.finish(tier, seed, "model_checking", cov, L1_ASSUME + [
         "power-loss model of the property text: any subset of the writes since the last completed sync, sector / word tears",
         "recorded states (dumps through the public API) are the reference for recovered content; Trace_KV validates them in C01"])
+
+
+def check_C11(tier, seed):
+    import fault
+    v = Verdict("C11")
+    mc = mc_page(tier, parts=("faults",), sensitive=[("MC_Page_faults_nopub.cfg", "FLConsistent")])
+    tot = dict(runs=0, commits=0, outcomes={}, events=0, states=0)
+    if tier == "quick":
+        srcs = [dict(profile="two", seed=seed * 100 + 1, len=30, nkeys=10, nvals=4, args=["--presized", "1"]),
+                dict(profile="overflow", seed=seed * 100 + 2, len=24, nkeys=8, nvals=4, args=["--presized", "0"])]
+    else:
+        srcs = [dict(profile=p, seed=seed * 1000 + i, len=45, nkeys=12, nvals=4, args=["--presized", ps])
+                for i, (p, ps) in enumerate([("two", "1"), ("overflow", "0"), ("three", "1"), ("two", "0"),
+                                             ("longkey", "1"), ("hibytes", "0"), ("empty", "1"), ("huge", "0")])]
+    samples = []
+    for r in srcs:
+        steps = fault.history_from_random(r, "C11")
+        np = ["--num-pages", "16384"] if r["args"][-1] == "1" else ["--num-pages", "4"]
+        summ, st = fault.fault_runs(v, r, steps, "C11-%s" % r["profile"], extra=np)
+        tot["runs"] += summ["runs"]
+        tot["commits"] += summ["commits"]
+        for k, n in summ["outcomes"].items():
+            tot["outcomes"][k] = tot["outcomes"].get(k, 0) + n
+        tot["events"] += st["events"]
+        tot["states"] += st["states"]
+        samples.append(dict(profile=r["profile"], calls_per_commit=summ["calls"], first_steps=steps[:5]))
+    cov = dict(states=mc["states"] + tot["states"], transitions=mc["transitions"] + tot["events"],
+               traces_validated_against_impl=tot["runs"], evaluations=tot["runs"],
+               distinct_nontrivial=tot["runs"] - tot["outcomes"].get("fault-not-reached", 0),
+               rule="MC: PageStore with FailDataWrite / FailSyncData / FailMetaWrite (also torn) / FailSyncMeta: FLConsistent, "
+                    "Accounting, CacheRecoverable hold for the repaired code and FLConsistent is violated when the shared list "
+                    "is not brought in line with a header that became visible (vacuity guard). Binding: for every interposed "
+                    "write / fsync of every commit of recorded histories the history is re-run with that call failing (error; "
+                    "short write then error) and, when the commit grows the file, with the extension refused (RLIMIT_FSIZE); "
+                    "commit must return Io, the handle must show exactly the pre or the post state, DB::check must agree, three "
+                    "further transactions must commit and read back, and again after reopen; every run is trace-validated by "
+                    "Trace_Page so that a stale shared free list is reported at the failed commit, not when it corrupts data.",
+               samples=samples, model=mc, outcomes=tot["outcomes"], exhaustive=False)
+    return v.finish(tier, seed, "fault_enumeration", cov, L1_ASSUME + [
+        "faults are injected at the libc boundary (write, fsync) and by RLIMIT_FSIZE for fallocate; single faults"])
+
+
+def check_C12(tier, seed):
+    import crash
+    v = Verdict("C12")
+    mc = mc_page(tier, parts=("damage",))
+    stats = dict(images=0, recipes=0, outcomes={}, traces=0, states=0)
+    if tier == "quick":
+        runs = [dict(profile="two", seed=seed * 100 + 1, n=1, len=40, nkeys=10, nvals=4,
+                     args=["--readback", "0", "--states", "1"]),
+                dict(profile="overflow", seed=seed * 100 + 2, n=1, len=25, nkeys=8, nvals=4,
+                     args=["--readback", "0", "--states", "1", "--presized", "0"])]
+        extra = ["--random", 60]
+    else:
+        runs = [dict(profile=p, seed=seed * 1000 + i, n=2, len=90, nkeys=12, nvals=4,
+                     args=["--readback", "0", "--states", "1"] + a)
+                for i, (p, a) in enumerate([("two", []), ("overflow", ["--presized", "0"]), ("three", []),
+                                            ("flat", ["--pagesize", "4096"]), ("hibytes", [])])]
+        extra = ["--random", 2000, "--masks", "1,2,4,8,16,32,64,128,255"]
+    samples = []
+    for r in runs:
+        build_harness()
+        tf = os.path.join(scratch(), "C12-%s-%d.ndjson" % (r["profile"], r["seed"]))
+        raw = tf + ".raw"
+        args = ["trace", "--seed", r["seed"], "--n", r["n"], "--len", r["len"], "--profile", r["profile"],
+                "--nkeys", r["nkeys"], "--nvals", r["nvals"], "--out", tf, "--l1", "1", "--raw", raw] + r["args"]
+        p = run_jvh(args)
+        if p.returncode != 0:
+            v.report({"kind": "hang" if p.returncode == 86 else "abort", "rc": p.returncode, "profile": r["profile"]},
+                     {"run": r, "stderr": p.stderr[-1500:]})
+            continue
+        rf, rec, gstates = crash.gen_damage_recipes(tf)
+        tot = crash.run_damage(v, tf, raw, rf, r, jobs=8, extra=extra)
+        stats["images"] += tot["images"]
+        stats["recipes"] += tot["recipes"]
+        stats["states"] += gstates
+        stats["traces"] += r["n"]
+        for k, n in tot["outcomes"].items():
+            stats["outcomes"][k] = stats["outcomes"].get(k, 0) + n
+        samples.append(rec[:4])
+        for x in (tf, raw, rf):
+            os.remove(x)
+    cov = dict(states=mc["states"] + stats["states"], transitions=mc["transitions"] + stats["images"],
+               traces_validated_against_impl=stats["traces"], evaluations=stats["images"],
+               distinct_nontrivial=stats["recipes"],
+               rule="MC: PageStore with Damage(slot) at quiescent points: FallbackIntact, AfterCrash (the other header's commit "
+                    "is recovered in full). Binding: Gen_Damage walks recorded executions and enables Damage for each slot after "
+                    "open and after every acknowledged commit (distinct_nontrivial = (commit count, slot) recipes); each is "
+                    "concretised as every single-byte change (masks) at every offset of the header page, zeroing, all-ones and "
+                    "seeded random multi-byte overwrites (evaluations = images opened by the real code). A change to a hashed "
+                    "field, the hash or the page-type byte must yield exactly the other header's commit; a change the pinned "
+                    "layout neither hashes nor reads may yield either; DB::check and a follow-up commit must succeed.",
+               samples=samples, model=mc, outcomes=stats["outcomes"], exhaustive=False)
+    return v.finish(tier, seed, "model_checking", cov, L1_ASSUME + [
+        "damage is applied to the file while no process has it open, before any further transaction"])
+
+
+C03_RULES = ("release-bound", "must-release", "reader-page-released", "alloc-of-live-page", "live-page-overwritten",
+             "alloc-rule", "double-free", "free-of-page-not-owned", "stale-header-read", "write-outside-allocation")
+
+
+def c03_scope(sig):
+    if sig.get("kind") == "l1":
+        return sig["rule"] in C03_RULES
+    if sig.get("kind") == "kv":
+        return sig.get("what") != "check"
+    return True
+
+
+def gen_readers(name, nkeys, steps, maxr):
+    mod, cfg = instantiate("Gen_Readers", name, dict(NKeys=nkeys, NVals=4, MaxSteps=steps, MaxR=maxr, Bucket=0),
+                           ["SPECIFICATION GSpec", "CHECK_DEADLOCK FALSE"])
+    beh, s, t = tlc_gen(mod, cfg, workers=8)
+    if not beh:
+        raise ToolError("Gen_Readers produced nothing")
+    return beh, s, t
+
+
+def check_C03(tier, seed):
+    import l1
+    v = Verdict("C03", out_of_scope=lambda sig: not c03_scope(sig))
+    mc = mc_page(tier, parts=("readers",))
+    stats = {}
+    presz = ["--num-pages", "8192"]   # single thread: the file must not grow while a reader is open
+    if tier == "quick":
+        plans = [("gr6", 8, 6, 2, ["two", "three"], 12), ("gr7r3", 6, 7, 3, ["two"], 40)]
+        runs = [dict(profile=p, seed=seed * 100 + i, n=4, len=70, nkeys=10, nvals=4,
+                     args=["--readback", "0", "--presized", "1", "--max-readers", "3"])
+                for i, p in enumerate(["two", "overflow"])]
+    else:
+        plans = [("gr7", 10, 7, 2, ["two", "three", "overflow"], 20), ("gr8r3", 8, 8, 3, ["two", "three"], 60)]
+        runs = [dict(profile=p, seed=seed * 1000 + i * 10 + j, n=10, len=120, nkeys=nk, nvals=4,
+                     args=["--readback", "0", "--presized", "1", "--max-readers", "4"])
+                for i, p in enumerate(["two", "overflow", "three", "longkey"]) for j, nk in enumerate([10, 24])]
+    gs = dict(behaviours=0, replays=0, steps=0, states=0, transitions=0, samples=[], configs=[])
+    for name, nk, steps, maxr, profiles, sample_every in plans:
+        beh, s, t = gen_readers(name, nk, steps, maxr)
+        n, st = kv.replay_behaviours(v, beh, profiles, "C03-" + name, extra_args=presz)
+        gs["behaviours"] += len(beh); gs["replays"] += n; gs["steps"] += st; gs["states"] += s; gs["transitions"] += t
+        gs["configs"].append(dict(name=name, behaviours=len(beh), max_steps=steps, max_readers=maxr, profiles=profiles))
+        if len(gs["samples"]) < 2:
+            gs["samples"].append([x for x in beh[len(beh) // 3]["steps"] if x.get("a") != "op"][:12])
+        # the same interleavings at the page level: release bounds, allocations, overwrites (sampled)
+        sub = beh[::sample_every]
+        tf, res, p = l1.record_behaviours(sub, profiles[0], "C03-" + name, extra_args=presz)
+        st1 = l1.page_trace(v, tf, {"profile": profiles[0], "gen": name, "nkeys": nk, "nvals": 4}, also_kv=False,
+                            scope=c03_scope, sync_rule="1")
+        for k in ("events", "states", "writes", "commits"):
+            stats[k] = stats.get(k, 0) + st1[k]
+        stats["replays"] = stats.get("replays", 0) + len(sub)
+        os.remove(tf)
+    l1_runs(v, runs, "C03", stats, scope=c03_scope, sync_rule="1")
+    cov = dict(states=mc["states"] + gs["states"] + stats.get("states", 0),
+               transitions=mc["transitions"] + gs["transitions"] + stats.get("events", 0),
+               traces_validated_against_impl=gs["replays"] + stats.get("replays", 0) + stats.get("traces", 0),
+               evaluations=gs["steps"] + stats.get("events", 0), distinct_nontrivial=gs["behaviours"],
+               rule="MC: PageStore readers configuration (ReaderPinned, ReaderIntact over all interleavings of BeginR/EndR with "
+                    "writer steps, release bound chosen anywhere in the allowed interval). spec->impl: Gen_Readers enumerates every "
+                    "interleaving (distinct_nontrivial) of opening/closing up to k readers with committing / rolling-back writers "
+                    "running update+delete chunks; each is replayed single-threaded on a pre-sized file and EVERY open reader is "
+                    "re-read in full after EVERY step against the snapshot L0 holds for it. impl->spec: the same interleavings "
+                    "(sampled) and random histories with up to 3-4 readers are validated by Trace_Page: release bound within the "
+                    "allowed interval w.r.t. the readers that are really open, no allocation or overwrite of a page of a live "
+                    "snapshot.",
+               samples=gs["samples"], model=mc, generated=gs["configs"],
+               recorded=dict((k, stats.get(k)) for k in ("events", "writes", "commits", "traces", "replays")),
+               exhaustive=False)
+    return v.finish(tier, seed, "model_checking", cov, L1_ASSUME)
+
+
+C10_RULES = ("alloc-rule", "must-release", "release-bound", "double-free", "free-of-page-not-owned",
+             "pages-in-use-grow-with-bounded-data", "file-grows-with-bounded-data", "persisted-freelist",
+             "reachable-vs-owned", "shared-freelist-vs-header", "high-water-mark", "alloc-of-live-page", "header-choice")
+
+
+def c10_scope(sig):
+    if sig.get("kind") == "l1":
+        return sig["rule"] in C10_RULES or (sig["rule"] in ("structure", "structure-at-open") and
+                                            any(e in ("page-unaccounted", "page-both-live-and-free") for e in sig.get("errs", [])))
+    if sig.get("kind") == "kv":
+        return False
+    return True
+
+
+def check_C10(tier, seed):
+    import l1
+    v = Verdict("C10")
+    mc = mc_page(tier, parts=("readers", "crash"))
+    stats = dict(events=0, states=0, txs=0, runs=0)
+    if tier == "quick":
+        plans = [("fixed", "two", 32, 80, ["--reopen-every", "17"]),
+                 ("varsize", "overflow", 18, 30, ["--reopen-every", "9"]),
+                 ("delins", "three", 24, 60, []),
+                 ("bucketdel", "overflow", 16, 60, ["--reopen-every", "25"]),
+                 ("fixed", "overflow", 24, 60, ["--reader-from", "10", "--reader-to", "25", "--num-pages", "4096"]),
+                 ("fixed", "two", 24, 50, ["--reader-plan", "o1@4,o2@6,o3@8,c1@11,c3@12,c2@13,o4@20,o5@22,c5@25,c4@27",
+                                           "--num-pages", "4096"]),
+                 ("bucketdel", "overflow", 12, 12, ["--decode", "1"]),
+                 ("varsize", "two", 16, 10, ["--decode", "1"])]
+    else:
+        plans = [("fixed", "two", 64, 700, ["--reopen-every", "101"]),
+                 ("varsize", "overflow", 24, 300, ["--reopen-every", "37"]),
+                 ("delins", "three", 40, 700, []),
+                 ("bucketdel", "overflow", 20, 1500, ["--reopen-every", "250"]),
+                 ("bucketdel", "longkey", 16, 500, []),
+                 ("fixed", "overflow", 32, 600, ["--reader-from", "50", "--reader-to", "200", "--num-pages", "65536"]),
+                 ("varsize", "hibytes", 32, 300, ["--reader-from", "20", "--reader-to", "60", "--num-pages", "65536"]),
+                 ("fixed", "two", 32, 400, ["--reader-plan", "o1@4,o2@6,o3@8,c1@11,c3@12,c2@13,o4@50,o5@52,o6@54,o7@56,c6@60,c4@61,c7@62,c5@63",
+                                            "--num-pages", "65536"]),
+                 ("bucketdel", "overflow", 16, 60, ["--decode", "1"]),
+                 ("varsize", "two", 24, 40, ["--decode", "1"]),
+                 ("delins", "three", 30, 40, ["--decode", "1"])]
+    series = []
+    for kind, prof, nk, cycles, extra in plans:
+        build_harness()
+        tf = os.path.join(scratch(), "C10-%s-%s.ndjson" % (kind, prof))
+        args = ["workload", "--kind", kind, "--cycles", cycles, "--profile", prof, "--nkeys", nk, "--nvals", 6,
+                "--out", tf] + (extra if "--num-pages" in extra else extra + ["--num-pages", "4"])
+        p = run_jvh(args, timeout=3000)
+        run = dict(kind=kind, profile=prof, nkeys=nk, nvals=6, cycles=cycles, extra=extra)
+        if p.returncode != 0:
+            v.report({"kind": "hang" if p.returncode == 86 else "abort", "rc": p.returncode, "profile": prof, "workload": kind},
+                     {"run": run, "stderr": p.stderr[-1500:]})
+        try:
+            info = json.loads(p.stdout.strip().splitlines()[-1])
+        except Exception:
+            info = {}
+        if info.get("bad"):
+            v.report({"kind": "workload-failed", "workload": kind, "profile": prof}, {"run": run, "info": info})
+        st = l1.page_trace(v, tf, run, also_kv=False, scope=c10_scope, sync_rule="1")
+        lines = read_lines(tf)
+        nps = [json.loads(x)["num_pages"] for x in lines if '"ev":"commit:sized"' in x]
+        stats["events"] += st["events"]; stats["states"] += st["states"]; stats["txs"] += info.get("txs", 0); stats["runs"] += 1
+        series.append(dict(workload=kind, profile=prof, txs=info.get("txs"), file_bytes=info.get("file_bytes"),
+                           high_water_pages_every_10th_commit=nps[::max(1, len(nps) // 12)], extra=extra))
+        os.remove(tf)
+    cov = dict(states=mc["states"] + stats["states"], transitions=mc["transitions"] + stats["events"],
+               traces_validated_against_impl=stats["runs"], evaluations=stats["txs"], distinct_nontrivial=stats["runs"],
+               rule="MC: PageStore readers+crash configurations: Accounting and FLConsistent in every reachable state (also after "
+                    "Reopen / Recover: free and pending are reloaded), Release constrained by MustReleaseOK / ReleaseBoundOK, "
+                    "allocation extends only when no free run fits. Binding: long cyclic workloads (fixed-size, variable-size, "
+                    "delete+reinsert, nested-bucket create+delete; periodic reopen; a reader pinned for a stretch) of the real code; "
+                    "every fl:alloc / fl:free / fl:release / publish / header event is validated step by step by Trace_Page "
+                    "(evaluations = transactions): extension only without a fitting free run, everything older than every reader "
+                    "released, nothing a reader needs released, reloaded list = persisted list; at every cycle marker pages in use "
+                    "must not exceed 3x the first cycle + 16 and the high-water mark 4x pages in use + 64 (+ what a pinned reader "
+                    "held). Shorter decoded runs give exact per-commit accounting. The measured high-water series is reported.",
+               samples=series, model=mc, exhaustive=False)
+    return v.finish(tier, seed, "model_checking", cov, L1_ASSUME + [
+        "the growth gates are generous multiples (fragmentation of multi-page runs is legitimate); the exact step rules carry the claim"])
 
 
 def replay(prop, path):
